@@ -8,7 +8,7 @@
    merge_neg        = the `- %num%` loop of gettokenlistfromvalid
    to_big           = MathLib::toBigNumber on [-]digits (octal when 0[0-7]+, stoull wrap to
                       64 bit two's complement, InternalError from 2^64 on)
-   walk             = the token loop of Library::isIntArgValid (same order of the four tests,
+   walk             = the token loop of Library::isIntArgValid (`! %num%` first, then the four tests in order,
                       same short circuit, None = the InternalError escapes)
    int_arg_valid    = isIntArgValid for an argument that has this <valid> text
    No proofs here. *)
@@ -169,10 +169,20 @@ Definition orelse (a : option bool) (k : unit -> option bool) : option bool :=
   | Some false => k tt
   end.
 
+(* Match "! %num%"  ->  return argvalue != toBigNumber(next)   (fix b7bc34c) *)
+Definition is_bang_num (t : str) (r : list str) : bool :=
+  is_tok cBANG t && match r with n :: _ => is_num n | [] => false end.
+Definition bang_result (r : list str) (z : Z) : option bool :=
+  match r with
+  | n :: _ => obind (to_big n) (fun v => Some (negb (z =? v)%Z))
+  | [] => Some false
+  end.
+
 Fixpoint walk (prev : option str) (l : list str) (z : Z) : option bool :=
   match l with
   | [] => Some false
   | t :: r =>
+      if is_bang_num t r then bang_result r z else
       orelse (t_eq t z) (fun _ =>
       orelse (t_range t r z) (fun _ =>
       orelse (t_from t r z) (fun _ =>
@@ -253,6 +263,18 @@ Fixpoint parse_items (ps : list str) : option range_expr :=
 (* item(,item)*  *)
 Definition parse_valid (s : str) : option range_expr := parse_items (split cCOMMA s).
 
+(* the whole documented language:  !v  (all values are accepted, except v)  or  item(,item)*  *)
+Inductive vexpr := VNot (v : Z) | VList (e : range_expr).
+Definition parse_vexpr (s : str) : option vexpr :=
+  match s with
+  | 33 :: n => option_map VNot (parse_num n)
+  | _ => option_map VList (parse_valid s)
+  end.
+Definition denote_v (e : vexpr) (z : Z) : Prop :=
+  match e with VNot v => z <> v | VList l => denote l z end.
+Definition denote_v_b (e : vexpr) (z : Z) : bool :=
+  match e with VNot v => negb (z =? v)%Z | VList l => denote_b l z end.
+
 (* side conditions of the main theorem: bounds are 64-bit values, ranges are not reversed *)
 Definition in64 (v : Z) : bool := (- two63 <=? v)%Z && (v <? two63)%Z.
 Definition item_ok (it : item) : bool :=
@@ -263,6 +285,7 @@ Definition item_ok (it : item) : bool :=
   | ITo b => in64 b
   end.
 Definition expr_ok (e : range_expr) : bool := forallb item_ok e.
+Definition vexpr_ok (e : vexpr) : bool := match e with VNot v => in64 v | VList l => expr_ok l end.
 
 (* ---------- <arg> children: not-null / not-bool / not-uninit / valid ---------- *)
 Inductive child :=
